@@ -59,7 +59,23 @@ STEP_BUDGET = 4000
 
 # ------------------------------------------------------------------ reference side: own parser, matcher, validator
 
-_ATOM_RE = re.compile(r"^(!!?)?(>=|<=|=|<|>)?a/([a-z]+)(?:-(\d+))?(?::(\w+))?$")
+_ATOM_RE = re.compile(r"^(!!?)?(>=|<=|=|<|>)?a/([a-z]+)(?:-(\d+(?:-r\d+)?))?(?::(\w+))?$")
+
+
+def vcmp(a, b):
+    """Versions are plain ints in most universes and strings 'N[-rM]' in the revision families; full version+revision
+    order through the PMS transcription in verif.ref."""
+    if isinstance(a, int) and isinstance(b, int):
+        return (a > b) - (a < b)
+    from verif import ref
+
+    return ref.pms_ver_cmp(str(a), str(b))
+
+
+def vkey(v):
+    import functools
+
+    return functools.cmp_to_key(vcmp)(v)
 
 
 def parse_atom(s):
@@ -69,7 +85,7 @@ def parse_atom(s):
     blk, op, name, ver, slot = m.groups()
     if bool(op) != (ver is not None):
         raise ValueError(f"harness atom not understood: {s!r}")
-    return {"blk": blk or "", "op": op or "", "name": name, "ver": int(ver) if ver else None, "slot": slot, "text": s}
+    return {"blk": blk or "", "op": op or "", "name": name, "ver": (int(ver) if ver.isdigit() else ver) if ver else None, "slot": slot, "text": s}
 
 
 def parse_dep(s):
@@ -99,16 +115,17 @@ def ref_match(a, p):
     op, v = a["op"], a["ver"]
     if op == "":
         return True
+    c = vcmp(p[1], v)
     if op == "=":
-        return p[1] == v
+        return c == 0
     if op == ">=":
-        return p[1] >= v
+        return c >= 0
     if op == "<=":
-        return p[1] <= v
+        return c <= 0
     if op == ">":
-        return p[1] > v
+        return c > 0
     if op == "<":
-        return p[1] < v
+        return c < 0
     raise ValueError(op)
 
 
@@ -483,6 +500,11 @@ def cases_of(tier, lo, hi, fam=None):
     fam = fam if fam is not None else family(tier)
     targets, kinds = dims(tier)
     for i in range(lo, hi):
+        if fam[i][0] == "RAW":  # ("RAW", family name, source package list, installed-tree options, target lists)
+            _, fname, src, inst_options, tg = fam[i]
+            for inst in inst_options:
+                yield fname, {"src": [list(p) for p in src], "inst": [list(p) for p in inst]}, tg, kinds
+            continue
         fname, dx1, dx2, dy2, sx2, dz1, il, mirror = fam[i][:8]
         tg = fam[i][8] if len(fam[i]) > 8 else targets
         for inst in INST_ALL if il == "all" else INST_Q:
@@ -567,9 +589,9 @@ def _k_slot_cycle_wrong_version(case):
     fin = []
     for f in case.get("final") or []:
         inst = f.endswith("[installed]")
-        nv, slot = f.split("[")[0].rsplit(":", 1)
-        name, ver = nv.split("/", 1)[1].rsplit("-", 1)
-        fin.append((name, int(ver), slot, "inst" if inst else "src"))
+        m = re.match(r"^a/([a-z]+)-(\d+(?:-r\d+)?):(\w+)", f)
+        name, ver, slot = m.group(1), m.group(2), m.group(3)
+        fin.append((name, _ver_like(case, name, ver), slot, "inst" if inst else "src"))
     deps = {(n, v, s): d for n, v, s, d in case["uni"]["src"]}
     edges = {}
     for q in fin:
@@ -599,20 +621,28 @@ def _k_slot_cycle_wrong_version(case):
         a = parse_atom(txt)
         if not a["op"]:
             return False
-        owner_name = owner.split("/", 1)[1].rsplit("-", 1)[0]
+        owner_name = re.match(r"^a/([a-z]+)-", owner).group(1)
         wrong = [q for q in fin if q[0] == a["name"] and q[3] == "src" and not ref_match(a, q)]
         if not wrong or not reaches(a["name"], owner_name):
             return False
     return True
 
 
+def _ver_like(case, name, ver):
+    """Version text back to the representation the universe uses for that package name (int or 'N[-rM]' string)."""
+    for n, v, _s, _d in case["uni"]["src"] + case["uni"]["inst"]:
+        if n == name and str(v) == ver:
+            return v
+    return int(ver) if ver.isdigit() else ver
+
+
 def _parse_final(case):
     fin = []
     for f in case.get("final") or []:
         inst = f.endswith("[installed]")
-        nv, slot = f.split("[")[0].rsplit(":", 1)
-        name, ver = nv.split("/", 1)[1].rsplit("-", 1)
-        fin.append((name, int(ver), slot, "inst" if inst else "src"))
+        m = re.match(r"^a/([a-z]+)-(\d+(?:-r\d+)?):(\w+)", f)
+        name, ver, slot = m.group(1), m.group(2), m.group(3)
+        fin.append((name, _ver_like(case, name, ver), slot, "inst" if inst else "src"))
     return fin
 
 
@@ -621,7 +651,7 @@ def _refused_top(case, name, fin):
     tops = [p for p in case["uni"]["src"] if p[0] == name]
     if not tops:
         return None
-    top = max(tops, key=lambda p: p[1])
+    top = max(tops, key=lambda p: vkey(p[1]))
     deps = {(n, v, s): d for n, v, s, d in case["uni"]["src"]}
     for q in fin:
         if q[3] != "src" or q[0] == name:
@@ -671,9 +701,10 @@ def _k_stale_dependency_lists(case):
     if not unsat:
         return False
     for _cls, _txt, owner in unsat:
-        name, ver = owner.split(":")[0].split("/", 1)[1].rsplit("-", 1)
+        m = re.match(r"^a/([a-z]+)-(\d+(?:-r\d+)?):", owner)
+        name, ver = m.group(1), m.group(2)
         top = _refused_top(case, name, fin)
-        if top is None or int(ver) >= top[1]:
+        if top is None or vcmp(ver, top[1]) >= 0:
             return False
     return True
 
